@@ -490,15 +490,20 @@ func checkParsersTriedOnExpiry(c *Ctx, p *Prog, rule string) {
 		if !ok {
 			return
 		}
-		h := call.Call.StaticCallee()
-		if h == nil || !isParserSig(h) {
+		var h *ssa.Function
+		for _, f := range calleesAt(in) {
+			if isParserSig(f) {
+				h = f
+			}
+		}
+		if h == nil {
 			return
 		}
 		n++
 		bad := ""
 		for _, g := range rawGuardsAt(call.Block()) {
 			bo, isBO := g.Cond.(*ssa.BinOp)
-			if !isBO || !isCounter(bo.X) {
+			if !isBO || !isCounter(derefCell(bo.X)) {
 				continue
 			}
 			if k, isK := constInt(bo.Y); !isK || k != 0 {
